@@ -31,6 +31,7 @@ structure Obs where
   max : Nat := 0
   flags : List Bool := [false]     -- per stack frame (head = top): one of the frame's OWN non-empty methods ran
   empties : List String := []      -- popped frames that never ran an own method although their node had rule children
+  vunsup : List Nat := []          -- rules reported "not supported" by a method of the ACTIVE visitor (not BaseVisitor's)
 
 def ownMethod (tab : List (List (Nat × Bool × Bool × Bool))) (V r : Nat) : Bool :=
   (tab.getD r []).any (fun m => m.1 == V && !m.2.2.1)
@@ -52,6 +53,7 @@ partial def twalk (T : Tables) : Tree → St × Obs → Except String (St × Obs
     let o := { o with hash := fnvAdd o.hash snap, events := o.events + 1, max := Nat.max o.max st.stack.length }
     let topV := (st.stack.headD (0, 0)).1
     let o := if ownMethod T.enterM topV r then { o with flags := setFlag o.flags 0 } else o
+    let o := if T.unsupM.contains (topV, r) then { o with vunsup := o.vunsup ++ [r] } else o
     match T.enterRule r kids st with
     | .error e => .error e
     | .ok st1 =>
@@ -126,8 +128,12 @@ def step (_ : Unit) (ts : List String) : Unit × String :=
         let nsyn := field rest "nsyn"; let nother := field rest "nother"
         let dsyn := field rest "dsyn"; let dother := field rest "dother"
         let rules := t.rules
-        let nunsup := rules.flatMap (fun r => List.replicate (E.unsupErrCount r) (ruleName r))
-        let dunsup := rules.flatMap (fun r => List.replicate (ED.unsupErrCount r) (ruleName r))
+        -- observer walk (same step functions) for the trace, with the probe as the only filter
+        let TP : Tables := { T with filters := [0] }   -- the probe embeds BaseVisitor: inert
+        let tr := twalk TP t (TP.init, {})
+        let vuns := match tr with | .ok (_, o) => o.vunsup.map ruleName | .error _ => []
+        let nunsup := rules.flatMap (fun r => List.replicate (E.unsupErrCount r) (ruleName r)) ++ vuns
+        let dunsup := rules.flatMap (fun r => List.replicate (ED.unsupErrCount r) (ruleName r)) ++ vuns
         let dfilt := (rules.map ED.filterErrCount).foldl (· + ·) 0
         -- the proven model
         let rn := T.run t
@@ -138,9 +144,6 @@ def step (_ : Unit) (ts : List String) : Unit × String :=
         let dpanic := match rd with | .error _ => true | .ok _ => false
         let nerrs := nsyn + nother + nunsup.length
         let derrs := dsyn + dother + dunsup.length + dfilt
-        -- observer walk (same step functions) for the trace, with the probe as the only filter
-        let TP : Tables := { T with filters := [0] }   -- the probe embeds BaseVisitor: inert
-        let tr := twalk TP t (TP.init, {})
         let (trace, empties, why) := match tr with
           | .ok (_, o) => (s!"{hex16 o.hash}:{o.events}:{o.max}", o.empties, "")
           | .error e => ("panic", [], e)
